@@ -135,16 +135,26 @@ class Proxy(object):
 # ----------------------------------------------------------------------------- world
 
 class World(object):
-    """one configuration on disk: grid, file cache, tile locker, synthetic source, tile manager"""
+    """one configuration on disk: grid, cache, tile locker(s), synthetic source, tile manager(s).
+    conf['kind']: 'file' (FileCache, replayed through the model), 'file-link' (FileCache with link_single_color_images,
+    upstream paints every tile in one colour, write_atomic gated at its temp-file creation and its rename) and 'sqlite'
+    (MBTilesLevelCache): the last two are run under the oracle only.
+    conf['procs']: every requester has its own cache / locker / tile manager objects on the shared directories (what
+    separate worker processes have).  conf['dims']: the requests carry these dimensions."""
 
-    def __init__(self, conf, base):
-        from mapproxy.cache.file import FileCache
+    def __init__(self, conf, base, nworkers=1):
         from mapproxy.cache.base import TileLocker
         from mapproxy.cache.tile import TileManager, Tile
         from mapproxy.grid import TileGrid
         from mapproxy.image.opts import ImageOptions
         self.conf = conf
         self.base = base
+        self.kind = conf.get('kind', 'file')
+        self.lenient = self.kind != 'file'
+        self.substeps = self.kind == 'file-link'
+        self.uniform = self.kind == 'file-link'
+        self.procs = bool(conf.get('procs'))
+        self.dims = dict(conf['dims']) if conf.get('dims') else None
         w, h = conf['extent']
         self.grid = TileGrid(srs=4326, bbox=(0, 0, w, h), tile_size=(TS, TS), res=list(conf['res']),
                              origin=conf['origin'])
@@ -152,23 +162,53 @@ class World(object):
             else [tuple(s) for s in self.grid.grid_sizes]
         self.cache_dir = os.path.join(base, 'cache')
         self.lock_dir = os.path.join(base, 'locks')
-        self.cache = FileCache(self.cache_dir, 'png')
-        self.locker = TileLocker(self.lock_dir, 1000, self.cache.lock_cache_id)
         self.opts = ImageOptions(format='image/png')
         self.source = Source(self)
-        ms = list(conf['meta'])
-        self.tm = TileManager(self.grid, self.cache, [self.source], 'png', self.locker, image_opts=self.opts,
-                              meta_size=ms, meta_buffer=0, concurrent_tile_creators=1)
         self.expire = bool(conf.get('expire'))
         self.expire_ts = int(time.time()) - 1000
-        if self.expire:
-            # an expire timestamp in the past: files written during the run are not expired
-            self.tm._expire_timestamp = self.expire_ts
+        ms = list(conf['meta'])
+        self.caches, self.tms = [], []
+        for _ in range(nworkers if self.procs else 1):
+            cache = self.make_cache()
+            locker = TileLocker(self.lock_dir, 1000, cache.lock_cache_id)
+            tm = TileManager(self.grid, cache, [self.source], 'png', locker, image_opts=self.opts,
+                             meta_size=ms, meta_buffer=0, concurrent_tile_creators=1)
+            if self.expire:
+                # an expire timestamp in the past: files written during the run are not expired
+                tm._expire_timestamp = self.expire_ts
+            self.caches.append(cache)
+            self.tms.append(tm)
+        if not self.procs:
+            self.tms = self.tms * nworkers
+        self.cache, self.tm = self.caches[0], self.tms[0]
         self.meta = self.tm.meta_grid is not None
         self.flip = bool(self.grid.flipped_y_axis)
+        self.stale = []
+        self.loc = {}
+        self.decoy_loc = {}
+        if self.kind != 'sqlite':
+            for cache in self.caches:
+                self.mark_is_cached(cache)
+            for z, (gw, gh) in enumerate(self.sizes):
+                for x in range(gw):
+                    for y in range(gh):
+                        self.loc[os.path.normpath(self.cache.tile_location(Tile((x, y, z)), dimensions=self.dims))] = (x, y, z)
+                        if self.dims:
+                            for d in (None, {k: v + 'x' for k, v in self.dims.items()}):
+                                self.decoy_loc[os.path.normpath(self.cache.tile_location(Tile((x, y, z)), dimensions=d))] = (x, y, z)
+        self.sched = None
+
+    def make_cache(self):
+        if self.kind == 'sqlite':
+            from mapproxy.cache.mbtiles import MBTilesLevelCache
+            return MBTilesLevelCache(self.cache_dir)
+        from mapproxy.cache.file import FileCache
+        return FileCache(self.cache_dir, 'png', link_single_color_images=(self.kind == 'file-link'))
+
+    def mark_is_cached(self, cache):
         # mark the calls FileCache.is_cached makes (its os.path.exists and the os.lstat of the metadata that follows
         # in TileManager.is_cached are one look at the file)
-        real_is_cached = self.cache.is_cached
+        real_is_cached = cache.is_cached
         world = self
 
         def is_cached(tile, dimensions=None):
@@ -180,14 +220,11 @@ class World(object):
                 finally:
                     s.tls.in_is_cached = False
             return real_is_cached(tile, dimensions=dimensions)
-        self.cache.is_cached = is_cached
-        self.stale = []
-        self.loc = {}
-        for z, (gw, gh) in enumerate(self.sizes):
-            for x in range(gw):
-                for y in range(gh):
-                    self.loc[os.path.normpath(self.cache.tile_location(Tile((x, y, z))))] = (x, y, z)
-        self.sched = None
+        cache.is_cached = is_cached
+
+    def want(self, c):
+        """content id the upstream delivers for tile c"""
+        return enc((34, 44, 54)) if self.uniform else enc(c)
 
     # the harness's own arithmetic (independent of MetaGrid): which meta tile does a tile belong to
     def my_msize(self, z):
@@ -227,7 +264,19 @@ class World(object):
         from PIL import Image
         for c in coords:
             img = Image.new('RGB', (TS, TS), colour(c))
-            self.cache.store_tile(Tile(c, ImageSource(img, image_opts=self.opts)))
+            self.cache.store_tile(Tile(c, ImageSource(img, image_opts=self.opts)), dimensions=self.dims)
+
+    def seed_decoys(self, coords):
+        """the same tiles under no dimension and under another dimension value, with another image (colour of z + 50)"""
+        from mapproxy.cache.tile import Tile
+        from mapproxy.image import ImageSource
+        from PIL import Image
+        if not self.dims:
+            return
+        for c in coords:
+            for d in (None, {k: v + 'x' for k, v in self.dims.items()}):
+                img = Image.new('RGB', (TS, TS), colour((c[0], c[1], c[2] + 50)))
+                self.cache.store_tile(Tile(c, ImageSource(img, image_opts=self.opts)), dimensions=d)
 
     def seed_stale(self, coords):
         """expired files: an older image (colour of z+100) with a modification time before the expire timestamp"""
@@ -237,19 +286,39 @@ class World(object):
         for c in coords:
             img = Image.new('RGB', (TS, TS), colour((c[0], c[1], c[2] + 100)))
             t = Tile(c, ImageSource(img, image_opts=self.opts))
-            self.cache.store_tile(t)
-            loc = self.cache.tile_location(Tile(c))
+            self.cache.store_tile(t, dimensions=self.dims)
+            loc = self.cache.tile_location(Tile(c), dimensions=self.dims)
             os.utime(loc, (self.expire_ts - 5000, self.expire_ts - 5000))
 
     def final_cache(self):
         from PIL import Image
+        from mapproxy.cache.tile import Tile
         out = {}
         extra = []
+        if self.kind == 'sqlite':
+            try:
+                cache = self.make_cache()
+                for z, (gw, gh) in enumerate(self.sizes):
+                    if not os.path.exists(os.path.join(self.cache_dir, '%s.mbtile' % z)):
+                        continue
+                    for x in range(gw):
+                        for y in range(gh):
+                            t = Tile((x, y, z))
+                            if cache.load_tile(t) and t.source is not None:
+                                out[(x, y, z)] = decode_image(t.source.as_image())
+                cache.cleanup()
+            except Exception as ex:  # noqa
+                extra.append('unreadable sqlite cache: %s' % type(ex).__name__)
+            return out, extra
         for root, _dirs, files in os.walk(self.cache_dir):
             for fn in files:
                 p = os.path.join(root, fn)
                 c = self.coord_of(p)
                 if c is None:
+                    if os.path.normpath(p) in self.decoy_loc:
+                        continue
+                    if self.kind == 'file-link' and os.path.basename(root) == 'single_color_tiles' and '.tmp-' not in fn:
+                        continue
                     extra.append(os.path.relpath(p, self.cache_dir))
                     continue
                 try:
@@ -298,7 +367,8 @@ class Source(object):
                     ty = int(cy // (TS * r))
                 if 0 <= tx < gw and 0 <= ty < gh:
                     blocks.append((tx, ty, level))
-                    img.paste(colour((tx, ty, level)), (i * TS, j * TS, (i + 1) * TS, (j + 1) * TS))
+                    img.paste((50, 60, 70) if w.uniform else colour((tx, ty, level)),
+                              (i * TS, j * TS, (i + 1) * TS, (j + 1) * TS))
         main = (min(b[0] for b in blocks), min(b[1] for b in blocks), level) if blocks else (-1, -1, level)
         self.calls.append({'main': main, 'blocks': sorted(blocks), 'size': tuple(size)})
         if entry is not None:
@@ -349,9 +419,11 @@ class Sched(object):
     def note_under_lock(self, entry, coords):
         """oracle: whatever a requester does while it holds a lock concerns the meta tile the lock file names"""
         k = self.holding.get(entry['pid'])
-        if k is None:
+        if k is None or len(k) != 3 or not all(isinstance(v, int) for v in k):
             return
         for c in coords:
+            if self.world.lenient and c == (-1, -1, -1):
+                continue        # the shared single colour file
             if self.world.my_main(c) != k:
                 self.oracle_fail.append(('lock-names-other-meta-tile',
                                          'requester %d holds the lock file of tile %r while it works on tile %r of meta tile %r' % (
@@ -365,12 +437,46 @@ class Sched(object):
             return r
         c = self.world.coord_of(path)
         if c is None:
-            self.weird.append('cache read of unexpected path %r' % (path,))
-            c = (-1, -1, -1)
+            if os.path.normpath(path) in self.world.decoy_loc:
+                self.oracle_fail.append(('wrong-dimension-location',
+                                         'requester %d with dimensions %r looks for tile %r at %s' % (
+                                             entry['pid'], self.world.dims, self.world.decoy_loc[os.path.normpath(path)],
+                                             os.path.relpath(path, self.world.cache_dir))))
+                c = (-2, -2, -2)
+            else:
+                if not self.world.lenient:
+                    self.weird.append('cache read of unexpected path %r' % (path,))
+                c = (-1, -1, -1)
         entry['res'] = ('read', c, bool(r))
         if getattr(self.tls, 'in_is_cached', False):
             self.last_exists[entry['pid']] = (path, entry, bool(r))
         self.note_under_lock(entry, [c])
+        return r
+
+    def w_fs_open(self, path, flags, *a):
+        """write_atomic, first half: the temporary file is created (O_EXCL)"""
+        if self.tid() is None or not self.world.substeps or not (flags & os.O_EXCL):
+            return os.open(path, flags, *a)
+        entry = self.gate('wtmp')
+        entry['res'] = ('wtmp', os.path.basename(path).split('.tmp-')[0])
+        return os.open(path, flags, *a)
+
+    def w_fs_rename(self, src, dst):
+        """write_atomic, second half: the temporary file gets the name of the tile file"""
+        if self.tid() is None or not self.world.substeps:
+            return os.rename(src, dst)
+        entry = self.gate('write')
+        c = self.world.coord_of(dst) or (-1, -1, -1)
+        entry['res'] = ('write', c, os.path.basename(dst))
+        return os.rename(src, dst)
+
+    def w_plain_exists(self, path):
+        """os.path.exists of another cache module (sqlite: is the level file initialised?)"""
+        if self.tid() is None:
+            return os.path.exists(path)
+        entry = self.gate('read')
+        r = os.path.exists(path)
+        entry['res'] = ('read', os.path.basename(path), bool(r))
         return r
 
     def w_lstat(self, path):
@@ -401,14 +507,24 @@ class Sched(object):
 
     def w_write_atomic(self, filename, data):
         from mapproxy.util.fs import write_atomic
+        if self.world.substeps:
+            return write_atomic(filename, data)     # gated inside, at its open and its rename
         entry = self.gate('write')
         write_atomic(filename, data)
         if entry is None:
             return
         c = self.world.coord_of(filename)
         if c is None:
-            self.weird.append('cache write to unexpected path %r' % (filename,))
-            c = (-1, -1, -1)
+            if os.path.normpath(filename) in self.world.decoy_loc:
+                self.oracle_fail.append(('wrong-dimension-location',
+                                         'requester %d with dimensions %r stores tile %r at %s' % (
+                                             entry['pid'], self.world.dims, self.world.decoy_loc[os.path.normpath(filename)],
+                                             os.path.relpath(filename, self.world.cache_dir))))
+                c = (-2, -2, -2)
+            else:
+                if not self.world.lenient:
+                    self.weird.append('cache write to unexpected path %r' % (filename,))
+                c = (-1, -1, -1)
         entry['res'] = ('write', c, decode_bytes(data))
         self.note_under_lock(entry, [c])
         if self.holding.get(entry['pid']) is None:
@@ -421,8 +537,11 @@ class Sched(object):
             return real(lock)
         k = self.world.key_of(lock.lock_file)
         if k is None:
-            self.weird.append('unexpected lock file %r' % (lock.lock_file,))
-            k = (-1, -1, -1)
+            if self.world.lenient:
+                k = ('file', os.path.basename(lock.lock_file))
+            else:
+                self.weird.append('unexpected lock file %r' % (lock.lock_file,))
+                k = (-1, -1, -1)
         try:
             r = real(lock)
         except LockError:
@@ -444,8 +563,11 @@ class Sched(object):
             return os.remove(path)
         k = self.world.key_of(path)
         if k is None:
-            self.weird.append('remove of unexpected path %r' % (path,))
-            k = (-1, -1, -1)
+            if self.world.lenient:
+                k = ('file', os.path.basename(path))
+            else:
+                self.weird.append('remove of unexpected path %r' % (path,))
+                k = (-1, -1, -1)
         entry['res'] = ('unlock', k)
         if self.holder.get(k) == entry['pid']:
             del self.holder[k]
@@ -457,7 +579,9 @@ class Sched(object):
         self.tls.tid = tid
         try:
             try:
-                tiles = self.world.tm.load_tile_coords([tuple(c) for c in self.reqs[tid]])
+                tiles = self.world.tms[tid].load_tile_coords([tuple(c) for c in self.reqs[tid]], dimensions=self.world.dims)
+                if self.world.kind == 'sqlite':
+                    self.world.tms[tid].cleanup()
                 out = []
                 for t in tiles:
                     if t.source is None:
@@ -502,6 +626,13 @@ class Sched(object):
                 self.wait_arrival()
             steps = 0
             for pid in schedule:
+                if isinstance(pid, (tuple, list)):
+                    # ('until', requester, access): let the requester run until that access is the next one
+                    _, q, op = pid
+                    while q < self.m and not self.finished[q] and self.pending[q] != op and steps < max_steps:
+                        self.grant(q)
+                        steps += 1
+                    continue
                 if pid >= self.m or self.finished[pid]:
                     continue
                 self.grant(pid)
@@ -545,10 +676,12 @@ class Patches(object):
         import time as real_time
         import mapproxy.util.lock as L
         import mapproxy.cache.file as F
+        import mapproxy.cache.mbtiles as MB
+        import mapproxy.util.fs as FS
         from mapproxy.util.fs import write_atomic as real_write_atomic
-        self.L, self.F = L, F
+        self.L, self.F, self.MB, self.FS = L, F, MB, FS
         self.saved = {'L.os': L.os, 'L.time': L.time, 'F.os': F.os, 'F.write_atomic': F.write_atomic,
-                      'try': L.FileLock._try_lock}
+                      'try': L.FileLock._try_lock, 'MB.os': MB.os, 'FS.os': FS.os}
         me = self
         real_try = L.FileLock._try_lock
 
@@ -576,7 +709,21 @@ class Patches(object):
             s = me.cur()
             return s.w_lstat(p) if s else real_os.lstat(p)
 
+        def fs_open(p, flags, *a):
+            s = me.cur()
+            return s.w_fs_open(p, flags, *a) if s else real_os.open(p, flags, *a)
+
+        def fs_rename(a, b):
+            s = me.cur()
+            return s.w_fs_rename(a, b) if s else real_os.rename(a, b)
+
+        def mb_exists(p):
+            s = me.cur()
+            return s.w_plain_exists(p) if s else real_os.path.exists(p)
+
         F.os = Proxy(real_os, path=Proxy(real_os.path, exists=exists), lstat=lstat)
+        FS.os = Proxy(real_os, open=fs_open, rename=fs_rename)
+        MB.os = Proxy(real_os, path=Proxy(real_os.path, exists=mb_exists))
         F.write_atomic = wa
         L.os = Proxy(real_os, remove=rm)
         L.time = Proxy(real_time, sleep=sleep)
@@ -587,6 +734,7 @@ class Patches(object):
         L, F = self.L, self.F
         L.os, L.time = self.saved['L.os'], self.saved['L.time']
         F.os, F.write_atomic = self.saved['F.os'], self.saved['F.write_atomic']
+        self.MB.os, self.FS.os = self.saved['MB.os'], self.saved['FS.os']
         L.FileLock._try_lock = self.saved['try']
         self.sched = None
 
@@ -608,6 +756,9 @@ def gen_conf(rng):
     g = dict(rng.choice(GRIDS))
     g['meta'] = rng.choice(METAS)
     g['expire'] = rng.random() < 0.35
+    if rng.random() < 0.3:
+        g['dims'] = {'time': rng.choice(['a', '2020', 't_1'])}
+    g['procs'] = rng.random() < 0.3
     return g
 
 
@@ -715,6 +866,51 @@ def stale_family(rng, count):
     return out
 
 
+def link_family(rng, count):
+    """FileCache with link_single_color_images, every tile has the same colour: requests for DIFFERENT meta tiles (different
+    locks) store the same single colour file; write_atomic is gated at the creation of its temporary file and at its rename"""
+    out = []
+    for v in range(count):
+        conf = {'extent': (32, 32), 'res': (8, 4, 2, 1), 'origin': rng.choice(['ll', 'ul']), 'kind': 'file-link',
+                'meta': rng.choice([(1, 1), (1, 1), (2, 2), (2, 1)]), 'procs': v % 3 == 0}
+        m = rng.choice([2, 2, 3, 4])
+        z = rng.choice([2, 3])
+        n = 2 ** z
+        cells = [(x, y, z) for x in range(0, n, 2) for y in range(0, n, 2)]
+        picks = rng.sample(cells, m)          # one tile per requester, pairwise different meta tiles
+        reqs = [[c] for c in picks]
+        if v % 2 == 0:
+            # requester 0 creates its temporary file, then requester 1 runs up to the same point, then both finish
+            sched = [('until', 0, 'write'), ('until', 1, 'write')] + [i % m for i in range(60)]
+        else:
+            sched = gen_schedule(rng, m, 80)
+        out.append((conf, reqs, [], sched, 'single-colour-link'))
+    return out
+
+
+def sqlite_family(rng, count):
+    """sqlite cache (one MBTiles file per level, created on first use), every requester with its own cache objects like a
+    worker process: the first requests of a level initialise its file concurrently"""
+    out = []
+    for v in range(count):
+        conf = {'extent': (32, 32), 'res': (8, 4, 2, 1), 'origin': rng.choice(['ll', 'ul']), 'kind': 'sqlite',
+                'meta': rng.choice([(1, 1), (2, 2), (2, 1)]), 'procs': True}
+        # (requesters that share one MBTilesLevelCache object serialise the creation of a level with a threading.Lock:
+        #  a requester stopped at a gate while it holds that lock cannot be scheduled around)
+        m = rng.choice([2, 2, 3, 4])
+        z = rng.choice([1, 2, 3])
+        n = 2 ** z
+        t = (rng.randrange(n), rng.randrange(n), z)
+        reqs = [[t] if rng.random() < 0.6 else [(rng.randrange(n), rng.randrange(n), z)] for _ in range(m)]
+        if v % 2 == 0:
+            # everybody looks whether the level file exists, then one after the other
+            sched = list(range(m)) + [i for i in range(m) for _ in range(25)]
+        else:
+            sched = gen_schedule(rng, m, 60)
+        out.append((conf, reqs, [], sched, 'sqlite-level-init'))
+    return out
+
+
 def contention_family(rng, count):
     """everybody wants the same tile, scheduled round robin / in bursts"""
     out = []
@@ -733,7 +929,9 @@ def corpus_cases():
         try:
             d = json.load(open(fn))
             conf = {'extent': tuple(d['conf']['extent']), 'res': tuple(d['conf']['res']), 'origin': d['conf']['origin'],
-                    'meta': tuple(d['conf']['meta']), 'expire': bool(d['conf'].get('expire'))}
+                    'meta': tuple(d['conf']['meta']), 'expire': bool(d['conf'].get('expire')),
+                    'dims': d['conf'].get('dims'), 'procs': bool(d['conf'].get('procs')),
+                    'kind': d['conf'].get('kind', 'file')}
             if 'stale' in d:
                 conf['stale'] = [tuple(t) for t in d['stale']]
             out.append((conf, [[tuple(t) for t in r] for r in d['requests']], [tuple(t) for t in d.get('initial', [])],
@@ -799,14 +997,14 @@ def compact_trace(trace):
 def run_one(ctx, patches, conf, reqs, initial, schedule, seq_no, rootdir, rng):
     base = os.path.join(rootdir, 'w%d' % seq_no)
     os.makedirs(base)
-    world = World(conf, base)
-    m = None
+    ids = [x if isinstance(x, int) else x[1] for x in schedule]
+    m = len(reqs) if reqs is not None else (max(ids) + 1 if ids else 2)
+    world = World(conf, base, m)
     if reqs is None:
-        m = max(schedule) + 1 if schedule else 2
         reqs = gen_requests(rng, world, m, 1.0 if rng.random() < 0.7 else 0.7)
     if initial is None:
         initial = gen_initial(rng, world, reqs)
-    ok_req = all(world.coord_of(world.cache.tile_location(__import__('mapproxy.cache.tile', fromlist=['Tile']).Tile(t))) == t
+    ok_req = all(0 <= t[2] < len(world.sizes) and 0 <= t[0] < world.sizes[t[2]][0] and 0 <= t[1] < world.sizes[t[2]][1]
                  for r in reqs for t in r)
     initial = sorted(set(tuple(t) for t in initial))
     stale = conf.get('stale')
@@ -820,6 +1018,7 @@ def run_one(ctx, patches, conf, reqs, initial, schedule, seq_no, rootdir, rng):
     world.stale = sorted(set(tuple(t) for t in stale) - set(initial))
     world.seed(initial)
     world.seed_stale(world.stale)
+    world.seed_decoys(sorted(set(u for r in reqs for t in r for u in world.my_members(world.my_main(tuple(t))))))
     s = Sched(world, reqs)
     world.sched = s
     patches.sched = s
@@ -853,8 +1052,8 @@ def oracle(world, s, reqs, initial, hang, final, extra, left):
                 if v is None:
                     out.append((SIG_RACE if race_window(s, tid, c) else 'response-missing-tile',
                                 'requester %d received no image for tile %r although the upstream delivers one' % (tid, c)))
-                elif v != enc(c):
-                    out.append(('response-wrong-tile', 'requester %d received image %r for tile %r (expected %r)' % (tid, v, c, enc(c))))
+                elif v != world.want(c):
+                    out.append(('response-wrong-tile', 'requester %d received image %r for tile %r (expected %r)' % (tid, v, c, world.want(c))))
     # one upstream call per meta tile
     per = {}
     for call in world.source.calls:
@@ -883,7 +1082,7 @@ def oracle(world, s, reqs, initial, hang, final, extra, left):
         for c in sorted(set(final) - expect):
             out.append(('final-cache-extra', 'tile %r is in the cache although nobody needed its meta tile' % (c,)))
         for c, v in sorted(final.items()):
-            want = enc_stale(c) if (c in world.stale and c not in renewed) else enc(c)
+            want = enc_stale(c) if (c in world.stale and c not in renewed) else (enc(c) if c in init else world.want(c))
             if v != want:
                 out.append(('final-cache-wrong-content', 'cache file of tile %r holds image %r (expected %r)' % (c, v, want)))
         for p in extra:
@@ -928,6 +1127,8 @@ def run_threads(ctx, reload_flag):
                 continue            # symmetric requesters
             exh.append((conf, [[(1, 1, 1)] for _ in range(m)], [], list(seq), 'exhaustive'))
     todo += exh
+    todo += link_family(rng, ctx.n(40, 400))
+    todo += sqlite_family(rng, ctx.n(50, 400))
 
     terms, descr = [], []
     reported = set()
@@ -945,7 +1146,9 @@ def run_threads(ctx, reload_flag):
             shared = any(len(v) >= 2 for v in mains.values())
             nontrivial = shared and (refused > 0 or under > 0)
             rep = {'origin': origin, 'conf': {'extent': list(conf['extent']), 'res': list(conf['res']), 'origin': conf['origin'],
-                                              'meta': list(conf['meta']), 'expire': bool(conf.get('expire'))},
+                                              'meta': list(conf['meta']), 'expire': bool(conf.get('expire')),
+                                              'dims': conf.get('dims'), 'procs': bool(conf.get('procs')),
+                                              'kind': conf.get('kind', 'file')},
                    'stale': [list(t) for t in world.stale],
                    'requests': [[list(t) for t in r] for r in reqs], 'initial': [list(t) for t in initial],
                    'schedule': list(schedule), 'trace': compact_trace(trace),
@@ -956,6 +1159,7 @@ def run_threads(ctx, reload_flag):
                      {'conf': rep['conf'], 'requests': rep['requests'], 'initial': rep['initial'], 'steps': len(trace),
                       'trace_head': compact_trace(trace[:30])})
             ctx.count('origin=' + origin.split(':')[0])
+            ctx.count('kind=' + world.kind + (',own-objects-per-requester' if world.procs else '') + (',dimensions' if world.dims else ''))
             ctx.count('mode=' + ('meta' if world.meta else 'single') + (',expire' if world.expire else ''))
             ctx.count('expired-tiles', len(world.stale))
             ctx.count('requesters=%d' % len(reqs))
@@ -975,6 +1179,8 @@ def run_threads(ctx, reload_flag):
                 if key not in reported:
                     reported.add(key)
                     ctx.problem('harness', 'unexpected behaviour of the tile code under the scheduler: ' + w, rep)
+            if world.lenient:
+                continue        # run under the oracle only (no model of this back end / of write_atomic's two halves)
             obs = [obs_lit(e) for e in trace]
             if hang or s.weird:
                 obs.append(IMPOSSIBLE)
